@@ -246,7 +246,8 @@ fn gen_sop(rng: &mut Rng, target: usize) -> SOp {
 
 fn gen_case(rng: &mut Rng, tier: Tier) -> BuilderCase {
     let max_n = if tier == Tier::Quick { 20 } else { 40 };
-    let (map, map_mode) = if rng.chance(0.2) {
+    let max_n = if cfg!(miri) { 4 } else { max_n };
+    let (map, map_mode) = if !cfg!(miri) && rng.chance(0.2) {
         let idx = rng.usize(4);
         (real_window(rng, idx, max_n), idx)
     } else {
@@ -254,6 +255,9 @@ fn gen_case(rng: &mut Rng, tier: Tier) -> BuilderCase {
         let mut sh = gen_shape(rng, mode, max_n);
         if sh.n < 3 {
             sh.n += 3;
+        }
+        if cfg!(miri) {
+            sh.n = sh.n.min(4);
         }
         (gen_map(rng, &sh), mode)
     };
